@@ -5942,7 +5942,11 @@ class FlowIRConcrete(object):
                 platform, comp_id[0], comp_id[1]))
             raise experiment.model.errors.InternalInconsistencyError(str(traceback.format_exc()) + '\n%s' % str(e))
 
-        if need_fully_resolved_flowir:
+        # VV: A configuration that was resolved while ignoring type-conversion errors must not answer (or be answered
+        #     by) a query that reports them, it is never cached
+        use_cache = need_fully_resolved_flowir and ignore_convert_errors is False
+
+        if use_cache:
             if self._cache.in_cache(cache_label):
                 return self._cache[cache_label]
 
@@ -6006,7 +6010,7 @@ class FlowIRConcrete(object):
             ret['command']['expandArguments'] = 'none'
 
         # VV: If this is a fully resolved flowir-configuration then store it in the cache
-        if need_fully_resolved_flowir:
+        if use_cache:
             self._cache[cache_label] = deep_copy(ret)
 
         return ret
